@@ -45,6 +45,7 @@ def cases(tier):
         out.append(dict(sys="GaussianConstrained", metric="dense", curved=si % 2 == 0, st=si))
         for fl in zoo.RIEMANNIAN_FLAVOURS:
             out.append(dict(sys="Riemannian", metric=fl, curved=True, st=si))
+        out.append(dict(sys="Riemannian", metric="cholneg", curved=True, st=si))
     # structured metric objects (their exact dense value is handed to the specification)
     for gi, gname in enumerate(GIVEN_METRICS if tier == "thorough" else GIVEN_METRICS[:6]):
         out.append(dict(sys=("Euclidean", "Gaussian", "Constrained")[gi % 3], metric="given", given=gname, curved=True, st=gi % 2))
@@ -56,7 +57,7 @@ def cases(tier):
 
 
 GIVEN_METRICS = ["tri-lower", "lowrank-", "block", "lowrank+*4(used)", "scaled", "product", "tri-upper", "lowrank+", "dense*4(used)",
-                 "lowrank-/4(used)", "tri-lower-full", "block*4(used)"]
+                 "lowrank+/4(used)", "tri-lower-full", "block*4(used)"]
 
 
 def _given(name):
@@ -186,8 +187,23 @@ def check_against_real(recs):
                 n += int(np.size(w))
                 g = np.asarray(got, dtype=float)
                 scale = max(1.0, float(np.max(np.abs(w))))
-                if g.shape != np.shape(w) or not np.all(np.abs(g - w) <= 1e-9 * scale):
-                    sig = f"C05:{tag}:{meth}"
+                again_bad = False
+                if shared is None and (g.shape == np.shape(w) and np.all(np.abs(g - w) <= 1e-9 * scale)):
+                    # the same methods again on ONE state that has already answered every method once (a value handed
+                    # out or cached earlier must not have been changed by a later evaluation)
+                    try:
+                        if "_twice" not in locals() or _twice[0] is not system:
+                            _twice = (system, ChainState(pos=q.copy(), mom=p.copy(), dir=1))
+                            for m2 in want:
+                                if hasattr(system, m2):
+                                    getattr(system, m2)(_twice[1])
+                        g2 = np.asarray(getattr(system, meth)(_twice[1]), dtype=float)
+                        if g2.shape != np.shape(w) or not np.all(np.abs(g2 - w) <= 1e-9 * scale):
+                            g, again_bad = g2, True
+                    except Exception:  # noqa: BLE001
+                        pass
+                if again_bad or g.shape != np.shape(w) or not np.all(np.abs(g - w) <= 1e-9 * scale):
+                    sig = f"C05:{tag}:{meth}" + (":second-evaluation" if again_bad else "")
                     if sig not in seen:
                         seen.add(sig)
                         what = ("is not the documented Hamiltonian component" if meth in ("h", "h1", "h2") else
@@ -206,10 +222,11 @@ def softabs_numeric():
     for with_aux in (False, True):
         model = zoo.Model(3, with_aux=with_aux)
         system = zoo.make_system("SoftAbs", model)
-        for st in STATES[:2]:
-            from fractions import Fraction
-            q = np.array([float(Fraction(x)) for x in st["q"]])
-            p = np.array([float(Fraction(x)) for x in st["p"]])
+        from fractions import Fraction
+        # (third state: the Hessian I + diag(1.2 q^2) + 0.3 (e1 e2' + e2 e1') has a repeated eigenvalue at q = (1/2, 1/2, sqrt(1/2)))
+        sts = [(np.array([float(Fraction(x)) for x in st["q"]]), np.array([float(Fraction(x)) for x in st["p"]])) for st in STATES[:2]]
+        sts.append((np.array([0.5, 0.5, np.sqrt(0.5)]), np.array([1.0, -0.5, 2.0])))
+        for q, p in sts:
 
             def comp(name, qq, pp):
                 return float(getattr(system, name)(ChainState(pos=np.array(qq), mom=np.array(pp), dir=1)))
